@@ -9,3 +9,4 @@ open GrVerif.Props.C13
 #print axioms cached_lookup_is_direct_lookup
 #print axioms cached_cmap_is_built_and_agrees
 #print axioms next_codepoint_is_next_in_range
+#print axioms direct_bmp_lookup_is_the_specified_search
